@@ -28,7 +28,7 @@
 #include "env.h"
 
 #define NFD 3
-#define NTM 3
+#define NTM 8
 #define NTK 3
 #define NEV 2
 #define NRAW 1
@@ -135,7 +135,7 @@ static const char *opnm[NOP] = { "leave", "fdreg", "fdtry", "fdtrybad", "fdunreg
 struct act { int op, a, b, c; };
 
 #define NTMCLASS 6
-static const char *tmclass[NTMCLASS] = { "zero", "past", "now", "+1ns", "+10ms", "far" };
+static const char *tmclass[12] = { "zero", "past", "now", "+1ns", "+10ms", "far", "+20ms", "+30ms", "+40ms", "+50ms", "+60ms", "+70ms" };
 #define NFDPRESET 5     /* handler presets at registration */
 static const int fdpreset[NFDPRESET][3] = { { 1, 0, 0 }, { 0, 0, 0 }, { 1, 1, 1 }, { 0, 1, 0 }, { 0, 0, 1 } };
 
@@ -344,7 +344,8 @@ static struct timespec tm_expiry(int cls)
 	case 2: break;
 	case 3: t.tv_nsec += 1; break;
 	case 4: t.tv_nsec += 10000000; break;
-	default: t.tv_sec += 100; break;
+	case 5: t.tv_sec += 100; break;
+	default: t.tv_nsec += 10000000L * (cls - 4); break;     /* seeds only: +20 ms, +30 ms, ... */
 	}
 	if (t.tv_nsec >= 1000000000L) { t.tv_sec++; t.tv_nsec -= 1000000000L; }
 	return t;
@@ -1217,6 +1218,8 @@ static const struct seed seeds[] = {
 	/* 22 */ { "fd0-in+err-fed,fd1-out-filled", 0, { A(OP_FD_REG, 0, 0, 0), A(OP_FD_SETH, 0, B_ERR, 1), A(OP_FD_FEED, 0, 0, 0), A(OP_FD_REG, 1, 3, 0), A(OP_FD_FILL, 1, 0, 0), END } },
 	/* 23 */ { "sig-excl,raw", 0, { A(OP_SIG_REG, 0, 1, 0), A(OP_RAW_REG, 0, 0, 0), END } },
 	/* 24 */ { "fd0-in-fed,fd1-in-fed,fd2-in-fed", 0, { A(OP_FD_REG, 0, 0, 0), A(OP_FD_REG, 1, 0, 0), A(OP_FD_REG, 2, 0, 0), A(OP_FD_FEED, 0, 0, 0), A(OP_FD_FEED, 1, 0, 0), A(OP_FD_FEED, 2, 0, 0), END } },
+	/* 25 */ { "seven-timers", 0, { A(OP_TM_REG, 0, 4, 0), A(OP_TM_REG, 1, 9, 0), A(OP_TM_REG, 2, 6, 0), A(OP_TM_REG, 3, 10, 0), A(OP_TM_REG, 4, 11, 0),
+				  A(OP_TM_REG, 5, 5, 0), A(OP_TM_REG, 6, 7, 0), END } },
 };
 #define NSEEDS ((int)(sizeof(seeds) / sizeof(seeds[0])))
 
